@@ -638,9 +638,13 @@ impl<T> SurfaceOwned<T> {
         F: FnMut(Position) -> T,
     {
         let mut data = Vec::with_capacity(size.height * size.width);
-        for row in 0..size.height {
-            for col in 0..size.width {
-                data.push(f(Position { row, col }));
+        // NOTE: there is nothing to iterate over if any dimension is zero, do not
+        //       spin over (possibly huge) number of empty rows.
+        if size.width > 0 {
+            for row in 0..size.height {
+                for col in 0..size.width {
+                    data.push(f(Position { row, col }));
+                }
             }
         }
         Self {
